@@ -50,10 +50,24 @@ def CmdWf (env : Env) : Cmd → Fs → Prop
   | .annotate a, fs => ∀ p ∈ expand env a fs, WfPath p
   | _, _ => True
 
+instance (env : Env) (c : Cmd) (fs : Fs) : Decidable (CmdWf env c fs) := by
+  cases c <;> unfold CmdWf <;> exact inferInstance
+
 /-- `x` is outside what every command of the history is documented to touch, at the moment
     the command starts. -/
 def Outside (env : Env) (w : World) (x : Path) : List Cmd → Fs → Prop
   | [], _ => True
   | c :: cs, fs => CmdWf env c fs ∧ x ∉ allowed env w c fs ∧ Outside env w x cs (exec env w c fs).1
+
+def Outside.dec (env : Env) (w : World) (x : Path) :
+    (cs : List Cmd) → (fs : Fs) → Decidable (Outside env w x cs fs)
+  | [], _ => isTrue trivial
+  | c :: cs, fs => by
+    unfold Outside
+    have := Outside.dec env w x cs (exec env w c fs).1
+    exact inferInstance
+
+instance (env : Env) (w : World) (x : Path) (cs : List Cmd) (fs : Fs) :
+    Decidable (Outside env w x cs fs) := Outside.dec env w x cs fs
 
 end Spec.Eff
